@@ -382,4 +382,11 @@ M('c16-range-unit-before-last-separator', 'C16', 'R13', REQ, _UNIT,
   "        if value and '=' in value:\n            unit, sep, req_range = value.rpartition('=')\n            return unit\n")
 M('c16-static-unit-prefix-test', 'C16', 'R13', ST, "req.range if req.range_unit == 'bytes' else None", "req.range if (req.range_unit or '').startswith('bytes') else None")
 M('c16-static-unit-never-consulted', 'C16', 'R13', ST, "req.range if req.range_unit == 'bytes' else None", "req.range")
+# ---------------------------------------------------- R14 a suffix range `-N` is accepted only for N > 0 (seeded change s10-c16-2)
+_SUFFIX = "                first_num, last_num = (-int(last), -1)\n                if first_num >= 0:\n                    raise ValueError()\n"
+M('c16-range-suffix-sign-checked-before-conversion', 'C16', 'R14', REQ, _SUFFIX,
+  "                if last[0] in '+-':\n                    raise ValueError()\n                first_num, last_num = (-int(last), -1)\n")
+M('c16-range-suffix-zero-accepted', 'C16', 'R14', REQ, "                if first_num >= 0:\n", "                if first_num > 0:\n")
+M('c16-range-suffix-unchecked', 'C16', 'R14', REQ, _SUFFIX, "                first_num, last_num = (-int(last), -1)\n")
+M('c16-range-suffix-refused', 'C16', 'R14', REQ, "                if first_num >= 0:\n", "                if first_num <= 0:\n")
 # negative controls verified by hand with --root (silent): see fixer report (wave 9)
